@@ -134,7 +134,7 @@ func (p c07) RunBatch(c *fw.Ctx) {
 	exts := object.ExtraFunctions()
 	names := make([]string, 0, len(exts))
 	for name := range exts {
-		if name == "read" || name == "exec" || name == "run" || name == "verif_panic" {
+		if name == "read" || name == "exec" || name == "run" || name == "verif_panic" || name == "verif_rtpanic" {
 			continue
 		}
 		names = append(names, name)
@@ -177,6 +177,17 @@ func (p c07) RunBatch(c *fw.Ctx) {
 	for _, a := range V {
 		for _, use := range []string{"x", "x + 1", "x = 2", "x++", "println(x)", "x[0]", "x[1] = 3", "len(x)", "for v = x {}", "[x]", "{1: x}", "x == x", "del(x)", "x.k", "-x", "f2 = () => x; f2()"} {
 			table = append(table, "x = "+a+"; func g() {del(x)}; func f() {x; g(); "+use+"}; f()")
+		}
+	}
+	// images of every pair of sizes handed to the two-image and drawing functions, at and beyond their bounds
+	sizes := [][2]int{{0, 0}, {1, 1}, {4, 2}, {2, 4}, {4, 4}, {7, 3}}
+	for _, s1 := range sizes {
+		for _, s2 := range sizes {
+			mk := fmt.Sprintf("image.new(\"ia\", %d, %d); image.new(\"ib\", %d, %d); ", s1[0], s1[1], s2[0], s2[1])
+			table = append(table, mk+"image.add(\"ia\", \"ib\")", mk+"image.add(\"ib\", \"ia\"); image.add(\"ia\", \"ia\")",
+				mk+fmt.Sprintf("image.set(\"ia\", %d, %d, [1, 2, 3]); image.set(\"ib\", %d, %d, [1, 2, 3, 4]); image.set(\"ia\", -1, 0, [1, 2, 3])", s2[0], s2[1], s1[0]-1, s1[1]-1),
+				mk+"image.move_to(\"ia\", 0, 0); image.line_to(\"ia\", 100, 100); image.close_path(\"ia\"); image.draw(\"ia\", [255, 0, 0]); image.add(\"ia\", \"ib\"); len(image.png(\"ia\"))",
+				mk+"image.set_hsl(\"ib\", 0, 0, [0.5, 0.5, 0.5]); image.set_ycbcr(\"ib\", 0, 0, [1, 2, 3]); image.draw_hsl(\"ib\", [0.1, 0.2, 0.3]); image.quad_to(\"ib\", 1, 1, 2, 2); image.cube_to(\"ib\", 1, 1, 2, 2, 3, 3)")
 		}
 	}
 	// every extension applied, inside a function, to a variable of the enclosing scope (it receives a reference)
